@@ -16,8 +16,10 @@
 package simcore
 
 import (
+	"os"
 	"runtime"
 	"sort"
+	"strconv"
 	"sync"
 	"sync/atomic"
 	"time"
@@ -395,6 +397,10 @@ func (s *Sim) fold(v uint64) {
 // Run drives the simulation until every top-level goroutine has returned and
 // nothing is parked (finished), or nothing can run (deadlock), or a bound
 // is hit. It must be called from the goroutine that owns the simulator.
+// traceSteps: VERIF_TRACE=1 prints every scheduling step to stderr (debugging aid;
+// never read on a path that draws from the PRNG).
+var traceSteps = os.Getenv("VERIF_TRACE") != ""
+
 func (s *Sim) Run() Verdict {
 	if id := goid(); id != s.selfID {
 		return Verdict{Kind: "harness", Detail: "Run called from a goroutine other than the one that created the simulator"}
@@ -462,6 +468,9 @@ func (s *Sim) Run() Verdict {
 		}
 		chosen := entries[idx]
 		s.tableRemove(chosen.gate)
+		if traceSteps {
+			os.Stderr.WriteString("step " + itoa(s.Stats.Steps) + ": " + itoa(len(labs)) + " parked -> site " + itoa(int(chosen.lab.Site)) + " job " + itoa(int(chosen.lab.Job)) + " a " + itoa(int(chosen.lab.A%100000)) + " b " + itoa(int(chosen.lab.B%100000)) + "\n")
+		}
 
 		// bookkeeping (scheduler goroutine only)
 		st := &s.Stats
@@ -554,3 +563,5 @@ func (s *Sim) Quiesce() (Snapshot, bool) {
 
 // ParkedCount returns the number of goroutines parked right now.
 func (s *Sim) ParkedCount() int { return s.tableLen() }
+
+func itoa(n int) string { return strconv.Itoa(n) }
